@@ -27,7 +27,19 @@ class ReverseBrownian(brownian_base.BaseBrownian):
     def __call__(self, ta, tb=None, return_U=False, return_A=False):
         # Whether or not to negate the statistics depends on the return value of the adjoint SDE. Currently, the adjoint
         # returns negated drift and diffusion, so we don't negate here.
-        return self.base_brownian(-tb, -ta, return_U=return_U, return_A=return_A)
+        out = self.base_brownian(-tb, -ta, return_U=return_U, return_A=return_A)
+        if not return_U and not return_A:
+            return out
+        # The increment is (deliberately) not negated, i.e. this is the path t -> -W(-t). Its space-time integral and
+        # Levy area over [ta, tb] then follow from those of W over [-tb, -ta].
+        W, *rest = out
+        if return_U:
+            U = rest[0]
+            rest[0] = None if U is None else (tb - ta) * W - U
+        if return_A:
+            A = rest[-1]
+            rest[-1] = None if A is None else -A
+        return (W, *rest)
 
     def __repr__(self):
         return f"{self.__class__.__name__}(base_brownian={self.base_brownian})"
